@@ -102,7 +102,7 @@ def _class_methods(prog, cls):
     return methods
 
 
-def find_memos(prog, cls, own_only=True):
+def find_memos(prog, cls, own_only=True, block_switch=False):
     out = []
     for nme, fn in cls.methods.items():
         if nme in SKIP_METHODS:
@@ -138,6 +138,25 @@ def find_memos(prog, cls, own_only=True):
             if sets and all(isinstance(n.value, ast.Constant) and n.value.value is True for n in sets):
                 region = fn.node.body[fn.node.body.index(iff) + 1:]
                 m_ = Memo(fn, flag, iff, region, "effect-skip", False)
+                m_.flag_attrs = {flag}
+                m_.switch = True
+                out.append(m_)
+        # (D') the same switch written as a block: `if not self.F: <work>; self.F = True` (the assignment is the last
+        # statement of the block, every assignment of the flag in the method is the constant True)
+        # (opt-in: a flag that describes the representation of the data - 'is in the rotating frame' - has the same shape
+        # and is kept in step by the methods that recalculate; the caller says which flag is a 'done already' mark)
+        for iff in [n for n in walk_no_nested(fn.node) if isinstance(n, ast.If) and block_switch]:
+            t_ = iff.test
+            if not (isinstance(t_, ast.UnaryOp) and isinstance(t_.op, ast.Not)) or iff.orelse or len(iff.body) < 2:
+                continue
+            flag = _self_attr(t_.operand)
+            last = iff.body[-1]
+            if flag is None or not (isinstance(last, ast.Assign) and any(_self_attr(x) == flag for x in last.targets)
+                                    and isinstance(last.value, ast.Constant) and last.value.value is True):
+                continue
+            sets = [n for n in walk_no_nested(fn.node) if isinstance(n, ast.Assign) and any(_self_attr(x) == flag for x in n.targets)]
+            if all(isinstance(n.value, ast.Constant) and n.value.value is True for n in sets):
+                m_ = Memo(fn, flag, iff, list(iff.body[:-1]), "effect-skip", False)
                 m_.flag_attrs = {flag}
                 m_.switch = True
                 out.append(m_)
@@ -419,7 +438,7 @@ def check_class(run, rid, prog, cls, what, known_ok=(), subclasses=None):
         run.obligation(rid, m.func.short, not stale, key=key + ":invalidate",
                        message="%s; the computation reads %s, and %s without resetting it: the next call returns the "
                                "result for the old state (%s)" % (lead, sorted(inputs)[:6], "; ".join(stale[:4]), what),
-                       loc=m.func.loc(m.guard), sample={"memo": m.attr, "inputs": sorted(inputs), "stale_writers": stale[:10]})
+                       loc=m.func.loc(m.guard), sample={"memo": m.attr, "inputs": sorted(inputs), "stale_writers": stale[:40]})
         # ambient units
         ok_units = (not units) or ("units" in guard_text)
         run.obligation(rid, m.func.short, ok_units, key=key + ":units",
